@@ -923,7 +923,7 @@ class C07(ParseProp):
                   "extension function, and all its index/slice/singular-query integers are within the I-JSON range (C07_typing, C07_int_range: "
                   "induction over Build's recursion). The grammar is translated to Coq on every run; single-token edits of valid sentences and "
                   "arbitrary strings are run through the crate, its extracted model and the independent RFC recogniser (Concrete.v). "
-                  "Rejection is proved for 31 classes of strings, each for all its members: no root, bad continuation, blank space before or "
+                  "Rejection is proved for 32 classes of strings (incl. every ill-typed call of the five functions in $[?f]), each for all its members: no root, bad continuation, blank space before or "
                   "after the query, leading zeros, -0, +, fraction in an index, an index outside the I-JSON range (every such integer), "
                   "empty brackets/filter, unquoted name, bad escape, control character, half operators, missing operand, upper-case literals, "
                   "blank space after . / .. / a function name (accepted by the grammar, refused by parser.rs) and more (RejectFacts/RejectMore/RejectRange/RejectBlank: the grammar of the run executed on a fixed prefix with the rest symbolic). "
